@@ -50,6 +50,17 @@ def run(rep, f, c, rule='R-REPAIR'):
             seen_cmp = False
             for e in p.conds():
                 ce, truth = e[1], e[2]
+                if isinstance(ce, tuple) and ce[0] == 'variant' and truth in ('Some', 'None'):
+                    # buffer.get(i) / get_mut(i) is None exactly when i >= len
+                    sc = ce[1]
+                    if isinstance(sc, tuple) and sc[0] == 'call' and (sc[1] or '').startswith('core::slice::<impl [T]>::get') and \
+                            (sc[1] or '').rsplit('::', 1)[-1] in ('get', 'get_mut') and len(sc[2]) == 2:
+                        ix = expand(sc[2][1])
+                        if not (isinstance(ix, tuple) and ix[0] == 'agg'):
+                            sl = strip_ref(sc[2][0])
+                            while isinstance(sl, tuple) and sl[0] in ('deref', 'ref'):
+                                sl = strip_ref(sl[1])
+                            ce, truth = ('bin', 'Ge', ix, ('len', sl)), truth == 'None'
                 if not (isinstance(ce, tuple) and ce[0] == 'bin' and ce[1] in MIRROR and isinstance(truth, bool)):
                     continue
                 try:
@@ -63,8 +74,8 @@ def run(rep, f, c, rule='R-REPAIR'):
                 op = ce[1] if lens[0][1] == -1 else MIRROR[ce[1]]       # normalised: pos op len
                 if d[1] == 0 and (op, truth) in REACHED:
                     ok = True
-            if not seen_cmp and h == 0:
-                continue        # an early return before the loop that does not look at the length (none on the pinned tree)
+            if not seen_cmp:
+                continue        # no comparison with the length in a shape the rule reads: not judged (the floor below still demands one judged exit)
             n += 1
             rep.ob(rule + '.exit', FN, ok, 'ensure_utf16_validity returns on a path that has not established `position == buffer.len()` '
                    '(an exit test with a constant offset stops before the last unit(s) are validated / repaired)', at, None, c)
